@@ -184,7 +184,10 @@ func (dec *Decoder) decodeBigRat(t reflect.Type, tag byte, p **big.Rat) {
 	case TagInteger:
 		*p = big.NewRat(dec.ReadInt64(), 1)
 	case TagLong:
-		*p = new(big.Rat).SetInt(dec.readBigInt(t))
+		// readBigInt returns nil (and sets the error) for text that is not an integer
+		if bi := dec.readBigInt(t); bi != nil {
+			*p = new(big.Rat).SetInt(bi)
+		}
 	case TagDouble:
 		*p = new(big.Rat).SetFloat64(dec.ReadFloat64())
 	case TagUTF8Char:
